@@ -1,54 +1,241 @@
 package simrt
 
-import "iter"
+import (
+	"bytes"
+	"iter"
+	"os"
+	"runtime"
+	"strconv"
+	"unsafe"
+)
 
-// Channel operations of repository code are rewritten to these polling
-// forms, so that a simulated client that has to wait hands the processor to
-// another client instead of blocking the only running goroutine. If nobody
-// else can run, Block reports a deadlock (exit 68).
+// Channel operations of repository code.
+//
+// A simple send or receive is first tried without blocking while the task
+// holds the baton. If it would block, the task marks itself blocked, hands the
+// baton to another task and then REALLY blocks in the Go runtime (a polling
+// loop could never meet another polling party on an unbuffered channel). It
+// becomes runnable again when the task holding the baton performs the
+// matching operation (or closes the channel); it then marks itself runnable
+// and parks on its pipe until the schedule picks it.
+//
+// Determinism: whoever holds the baton calls settle() after every channel
+// operation that succeeded, after Close and when it is woken by a task that is
+// on its way into a block. settle() waits until every task in the blocked
+// state is really parked inside a channel operation (read off the runtime's
+// goroutine dump), i.e. until everybody released by the operation has marked
+// itself runnable. So at every scheduling decision the set of runnable tasks
+// is a function of the schedule, not of timing.
+//
+// select statements are rewritten into polling loops by the instrumenter (a
+// non-blocking attempt succeeds exactly when the counterpart is parked, which
+// simple sends/receives now are); their clause bodies start with AfterOp.
+
+const (
+	dirSend = 1
+	dirRecv = 2
+)
+
+var (
+	needSettle   bool
+	maybeBlocked bool
+	stackBuf     []byte
+	// BlockedOps counts operations that really blocked.
+	BlockedOps uint64
+)
+
+func chanID[T any](ch chan T) uintptr    { return *(*uintptr)(unsafe.Pointer(&ch)) }
+func chanIDr[T any](ch <-chan T) uintptr { return *(*uintptr)(unsafe.Pointer(&ch)) }
+func chanIDs[T any](ch chan<- T) uintptr { return *(*uintptr)(unsafe.Pointer(&ch)) }
+
+// curGID parses the current goroutine's id out of its stack header.
+func curGID() uint64 {
+	var b [64]byte
+	n := runtime.Stack(b[:], false)
+	s := b[:n]
+	s = bytes.TrimPrefix(s, []byte("goroutine "))
+	i := bytes.IndexByte(s, ' ')
+	if i < 0 {
+		return 0
+	}
+	id, _ := strconv.ParseUint(string(s[:i]), 10, 64)
+	return id
+}
+
+// parkedInChanOp reports whether goroutine gid is parked in a channel
+// operation according to dump (output of runtime.Stack(all)).
+func parkedInChanOp(dump []byte, gid uint64) bool {
+	key := []byte("goroutine " + strconv.FormatUint(gid, 10) + " [")
+	i := bytes.Index(dump, key)
+	for i > 0 && dump[i-1] != '\n' {
+		j := bytes.Index(dump[i+1:], key)
+		if j < 0 {
+			return false
+		}
+		i += 1 + j
+	}
+	if i < 0 {
+		return false
+	}
+	st := dump[i+len(key):]
+	return bytes.HasPrefix(st, []byte("chan send")) || bytes.HasPrefix(st, []byte("chan receive")) || bytes.HasPrefix(st, []byte("select"))
+}
+
+// settle waits until every task in the blocked state is really parked in a
+// channel operation.
+//
+//go:norace
+func settle() {
+	if !maybeBlocked {
+		return
+	}
+	for spin := 0; ; spin++ {
+		any3 := false
+		for i := 0; i < ntasks; i++ {
+			if tasks[i].state == 3 {
+				any3 = true
+			}
+		}
+		if !any3 {
+			maybeBlocked = false
+			return
+		}
+		if len(stackBuf) == 0 {
+			stackBuf = make([]byte, 1<<16)
+		}
+		n := runtime.Stack(stackBuf, true)
+		for n == len(stackBuf) {
+			stackBuf = make([]byte, 2*len(stackBuf))
+			n = runtime.Stack(stackBuf, true)
+		}
+		dump := stackBuf[:n]
+		all := true
+		for i := 0; i < ntasks; i++ {
+			if tasks[i].state == 3 && !parkedInChanOp(dump, tasks[i].gid) {
+				all = false
+			}
+		}
+		if all {
+			return
+		}
+		if spin > 2_000_000 {
+			os.Stdout.WriteString("SIM-SETTLE-TIMEOUT\n")
+			os.Exit(2)
+		}
+		runtime.Gosched()
+	}
+}
+
+// beginBlock: the running task is about to block for real. It marks itself
+// blocked and hands the baton to another runnable task.
+//
+//go:norace
+func beginBlock(c uintptr, dir int8) int {
+	me := cur
+	BlockedOps++
+	tasks[me].state = 3
+	tasks[me].blockedOn = c
+	tasks[me].blockDir = dir
+	maybeBlocked = true
+	nx := decide(gstep, me, -3, true)
+	if nx < 0 {
+		// nobody can run, so nobody can ever perform the matching operation
+		os.Stdout.WriteString("SIM-DEADLOCK\n")
+		os.Exit(68)
+	}
+	tasks[me].parkedSite = -3
+	record(gstep, me, -3, nx, true)
+	needSettle = true // the task woken next must wait until we are really parked
+	cur = nx
+	rawWrite(tasks[nx].wfd)
+	return me
+}
+
+// endBlock: the real operation has completed (somebody holding the baton
+// made it possible and is now waiting in settle()). Become runnable and park.
+//
+//go:norace
+func endBlock(me int) {
+	tasks[me].blockedOn = 0
+	tasks[me].state = 1
+	rawRead(tasks[me].rfd)
+	settleIfNeeded()
+}
+
+// settleIfNeeded is called by a task that has just been given the baton: only
+// if the task that handed it over was on its way into a real block is there
+// anybody whose state could still be changing.
+//
+//go:norace
+func settleIfNeeded() {
+	if needSettle {
+		needSettle = false
+		settle()
+	}
+}
+
+//go:norace
+func simulating() bool { return active && cur >= 0 }
 
 func Recv[T any](ch <-chan T) T {
-	Yield(0)
-	for {
-		select {
-		case v := <-ch:
-			return v
-		default:
-		}
-		if ch == nil {
-			Block()
-			continue
-		}
-		Block()
-	}
+	v, _ := Recv2(ch)
+	return v
 }
 
 func Recv2[T any](ch <-chan T) (T, bool) {
 	Yield(0)
-	for {
-		select {
-		case v, ok := <-ch:
-			return v, ok
-		default:
-		}
-		Block()
+	if !simulating() {
+		v, ok := <-ch
+		return v, ok
 	}
+	select {
+	case v, ok := <-ch:
+		settle()
+		return v, ok
+	default:
+	}
+	me := beginBlock(chanIDr(ch), dirRecv)
+	v, ok := <-ch
+	endBlock(me)
+	return v, ok
 }
 
 func Send[T any](ch chan<- T, v T) {
 	Yield(0)
-	for {
-		select {
-		case ch <- v:
-			return
-		default:
-		}
-		Block()
+	if !simulating() {
+		ch <- v
+		return
+	}
+	select {
+	case ch <- v:
+		settle()
+		return
+	default:
+	}
+	me := beginBlock(chanIDs(ch), dirSend)
+	ch <- v
+	endBlock(me)
+}
+
+// Close replaces close(ch): every receiver it releases must have marked
+// itself runnable before the closer goes on.
+func Close[C interface{ ~chan T | ~chan<- T }, T any](ch C) {
+	Yield(0)
+	close(ch)
+	if simulating() {
+		settle()
 	}
 }
 
-// RecvSeq replaces `range ch`: it receives by polling until the channel is
-// closed.
+// AfterOp is called at the start of every select clause body: the
+// communication of that clause has just succeeded.
+func AfterOp() {
+	if simulating() {
+		settle()
+	}
+}
+
+// RecvSeq replaces `range ch`.
 func RecvSeq[T any](ch <-chan T) iter.Seq[T] {
 	return func(yield func(T) bool) {
 		for {
